@@ -48,6 +48,8 @@ def verus(name, props, clause, fn, tier="quick"):
 ROOT = "verif_root::"
 EN = "energy::verif_energy::n::"
 RN = "verif_root::n::"
+RY = "energy::raytracing::ray::verif_ray::n::"
+BV = "energy::raytracing::bvh::verif_bvh::n::"
 
 OBLIGATIONS = [
     # ---- C11 classifiers (complete proofs over the full float domain) --------------------------------
@@ -97,6 +99,17 @@ OBLIGATIONS = [
     native("n_c11_scaling", ["C11"], "C11.scaling", "EnergyProps::from(&Model)", RN + "n_c11_scaling"),
     native("n_c15_check", ["C15"], "C15.check", "check(&Model) / EnergyIndicators::compute", RN + "n_c15_check"),
     native("n_c16_purge", ["C16"], "C16.purge", "purge_unused(&mut Model)", RN + "n_c16_purge"),
+    native("n_c13_bvh_equiv", ["C13", "C12"], "C13.bvh.equiv", "BVH::build / BVH::intersects / build_from_node_list / PreorderIter", BV + "n_c13_bvh_equiv", crash=True, timeout=120),
+    native("n_c13_bvh_many", ["C13", "C14"], "C13.bvh.many", "BVH::build / partition_elements_by_centroid", BV + "n_c13_bvh_many", crash=True, timeout=120),
+    native("n_c13_partition", ["C13"], "C13.partition", "BVH::partition_elements_by_centroid (contract P assumed by the Verus unit)", BV + "n_c13_partition"),
+    native("n_c13_point_in_poly", ["C13"], "C13.pip", "raytracing::ray::point_in_poly", RY + "n_c13_point_in_poly"),
+    native("n_c13_ray_polygon", ["C13"], "C13.ray.poly", "Ray::intersects_with_data", RY + "n_c13_ray_polygon"),
+    native("n_c13_ray_posed", ["C13"], "C13.ray.posed", "impl Intersectable for WallGeom / WallGeom::to_global_coords_matrix", EN + "n_c13_ray_posed"),
+    native("n_c13_geom_aabb", ["C13"], "C13.geom.aabb", "impl Bounded for WallGeom (aabb)", EN + "n_c13_geom_aabb"),
+    native("n_c13_setback", ["C13", "C12"], "C13.setback", "Window::shades_for_setback", EN + "n_c13_setback"),
+    native("n_c13_aabb_slab", ["C13"], "C13.aabb.slab", "AABB::intersects", EN + "n_c13_aabb_slab"),
+    native("n_c12_sunlit", ["C12", "C14"], "C12.sunlit", "Model::sunlit_fraction / collect_occluders / ray_origins_for_window", EN + "n_c12_sunlit"),
+    native("n_c12_fshobst", ["C12"], "C12.fshobst", "Model::compute_fshobst", EN + "n_c12_fshobst"),
     native("n_c09_n50", ["C09"], "C09.n50", "N50Data::from(&EnergyProps)", EN + "n_c09_n50"),
     native("n_c10_qsoljul", ["C10"], "C10.qsoljul", "QSolJulData::from(&EnergyProps, &HashMap<Orientation,f32>)", EN + "n_c10_qsoljul"),
     native("n_c10_july_table", ["C10", "C20"], "C10.table", "climatedata::total_radiation_in_july_by_orientation", EN + "n_c10_july_table"),
